@@ -40,6 +40,12 @@ pub struct Decode {
     /// a failed decode in between must not change their results
     #[serde(default)]
     pub hard_error_at: Option<u32>,
+    /// re-entrancy: while answering this read call (answered-call index) the reader itself decodes
+    /// another byte string (hex) from a slice on the same thread — a reader that is layered on
+    /// another Mode S stream, a runtime that runs another task inside a blocking read. The outer
+    /// decode must not notice.
+    #[serde(default)]
+    pub nested_at: Option<(u32, String)>,
 }
 
 #[derive(Clone, Debug, Serialize, Deserialize, PartialEq)]
@@ -69,6 +75,7 @@ struct SimReader<'a> {
     split_two: u32,
     hang: bool,
     hard_failed: bool,
+    nested_done: bool,
 }
 
 impl<'a> SimReader<'a> {
@@ -92,6 +99,7 @@ impl<'a> SimReader<'a> {
             split_two: 0,
             hang: false,
             hard_failed: false,
+            nested_done: false,
         }
     }
     fn note(&mut self, s: String) {
@@ -112,6 +120,15 @@ impl Read for SimReader<'_> {
             // bounded run: a decode that keeps calling is reported as a hang
             self.hang = true;
             return Err(io::Error::new(io::ErrorKind::Other, "step cap"));
+        }
+        if let Some((n, hex)) = &self.dec.nested_at {
+            if !self.nested_done && self.step as u32 >= *n {
+                self.nested_done = true;
+                let inner = wire::unhex(hex);
+                let _ = catch_unwind(AssertUnwindSafe(|| Frame::from_bytes(&inner)));
+                let _ = take_panic();
+                self.note(format!("#{} nested decode of {hex}", self.calls));
+            }
         }
         if self.dec.hard_error_at.map(|n| self.step as u32 >= n).unwrap_or(false) {
             self.hard_failed = true;
@@ -315,10 +332,16 @@ impl Engine for ReaderEngine {
                     .collect();
                 let post_seek_eintr = if post_seek_bias { (0..4).map(|_| if rng.coin() { 1 + rng.below(3) as u8 } else { 0 }).collect() } else { vec![] };
                 let start = if fault_free || rng.chance(0.7) { 0 } else { *rng.pick(&[1usize, 2, 7, 14, 28, 100]) };
-                Decode { frame, start, steps, post_seek_eintr, hard_error_at: None }
+                Decode { frame, start, steps, post_seek_eintr, hard_error_at: None, nested_at: None }
             })
             .collect();
         let mut decodes: Vec<Decode> = decodes;
+        if !fault_free && rng.chance(0.03) {
+            // a decode nested inside a read call of another decode (same thread)
+            let i = rng.usize_below(decodes.len());
+            let inner = if frames.len() >= 2 && rng.coin() { frames[(decodes[i].frame + 1) % frames.len()].clone() } else { gen_frame(rng) };
+            decodes[i].nested_at = Some((rng.below(14) as u32, wire::hex(&inner)));
+        }
         if !fault_free && decodes.len() >= 2 && rng.chance(0.03) {
             // the device behind one reader goes away in the middle of a decode; the decodes after
             // it use healthy readers
@@ -415,6 +438,9 @@ impl Engine for ReaderEngine {
             h.str(&got_s);
             state.u64(rd.trace.finish());
             out.steps += rd.calls;
+            if rd.nested_done {
+                out.fault("decode_nested_inside_a_read_call");
+            }
             if rd.hard_failed {
                 // not judged itself; everything decoded after it is
                 out.fault("hard_read_error_in_an_earlier_decode");
@@ -516,6 +542,11 @@ impl Engine for ReaderEngine {
             if d.hard_error_at.is_some() {
                 let mut s = sc.clone();
                 s.decodes[i].hard_error_at = None;
+                c.push(s);
+            }
+            if d.nested_at.is_some() {
+                let mut s = sc.clone();
+                s.decodes[i].nested_at = None;
                 c.push(s);
             }
             if !d.post_seek_eintr.is_empty() {
